@@ -30,9 +30,10 @@ NONDET = [
 ]
 
 # root function (prefix) -> reason
+# keyed by source file (module), not by function name
 EXCEPTIONS = {
-    "run::runner::": "Runner timing: start_time / finish_time / the time limit (StopReason::TimeLimit is about wall time by definition)",
-    "run::run::run_eqsat": "run_eqsat timing: total_time and the time limit",
+    "src/run/runner.rs": "Runner timing: start_time / finish_time / the time limit (StopReason::TimeLimit is about wall time by definition)",
+    "src/run/run.rs": "run_eqsat timing: total_time and the time limit",
 }
 
 
@@ -78,7 +79,7 @@ def z2(ctx):
             for rx, what in NONDET:
                 if rx.search(t) or rx.search(f):
                     hits += 1
-                    why = [w for k, w in EXCEPTIONS.items() if root.id.startswith(k)]
+                    why = [w for k, w in EXCEPTIONS.items() if (b.file or "") == k]
                     ctx.check(bool(why), "source:%s:%s" % (C.fkey(root), t.split("::")[-1]), "%s uses %s (%s) — %s" % (C.short(root.id), t, what, why[0] if why else ""),
                               "%s calls %s (%s) outside the frozen exception table: an observable result can depend on it" % (C.short(root.id), t, what), where_of(b, c.bb))
                     break
@@ -98,11 +99,11 @@ def z2(ctx):
             if re.search(r"Hash(Map|Set)<\*(const|mut) ", ty):
                 ptr_users.setdefault(crate.root_of(b).id, set()).add(re.search(r"(Hash(Map|Set)<\*(const|mut) [^,>]*)", ty).group(1))
     ctx.info("pointer-keyed hash containers: %s" % {C.short(k): sorted(v) for k, v in ptr_users.items()})
-    allowed_ptr = {"explain::show::": "ShowMap: keyed by proof-node address for sharing; iteration is sorted by insertion index before formatting (checked)",
-                   "lang::Language::check": "pointer sets compared with is_disjoint / == only (order never observed)"}
+    allowed_ptr = {"src/explain/show.rs": "ShowMap: keyed by proof-node address for sharing; iteration is sorted by insertion index before formatting (checked)",
+                   "src/lang.rs": "Language::check: pointer sets compared with is_disjoint / == only (order never observed)"}
     for rid, tys in sorted(ptr_users.items()):
         root = crate.bodies[rid]
-        why = [w for k, w in allowed_ptr.items() if k in rid]
+        why = [w for k, w in allowed_ptr.items() if (root.file or "") == k]
         if not ctx.check(bool(why), "ptr-keyed:" + C.fkey(root), "%s uses a pointer-keyed hash container — %s" % (C.short(rid), why[0] if why else ""),
                          "%s uses a hash container keyed by raw pointers (%s): its iteration order depends on memory addresses" % (C.short(rid), sorted(tys)), where_of(root)):
             continue
